@@ -185,6 +185,15 @@ func (t *Table) Format(w io.Writer) error {
 				spanCols = append(spanCols, col)
 			}
 		}
+		if len(spanCols) == 0 {
+			// Every column under this cell is a shrink
+			// column. The cell still needs the room, so
+			// grow them after all.
+			for col := cell.col; col < cell.col+cell.span; col++ {
+				spanCols = append(spanCols, col)
+				w += ws[col]
+			}
+		}
 		// Process the wider columns first.
 		sort.Slice(spanCols, func(i, j int) bool {
 			return ws[spanCols[i]] > ws[spanCols[j]]
